@@ -133,7 +133,7 @@ def gen(t, tier):
         sc['coverage'] = [fx, fy, fx + t.randint(1, 6) / 8.0 + t.pick([0, 1 / 32.0]), fy + t.randint(1, 6) / 8.0]
     else:
         sc['coverage'] = None
-    sc['cov_srs'] = t.pick(['3857', '3857', '4326'])
+    sc['cov_srs'] = t.pick(['3857', '4326'])
     if sc['coverage'] and t.chance(0.4):
         # upper/right edges just beyond a tile border of a coarse level (resolved against the grid at run time)
         sc['coverage'] = ['edge', t.choice(1000), t.choice(1000), t.choice(1000), t.choice(25)]
